@@ -65,7 +65,7 @@ def decode(data: bytes):
                 "other_value": fdp.ConsumeBool(),
             }
         )
-    return {
+    desc = {
         "universe": U,
         "letters": order,
         "layout": layout,
@@ -75,6 +75,13 @@ def decode(data: bytes):
         "entry": "from_df" if fdp.ConsumeBool() else "set_values_from_df",
         "dup_index": fdp.ConsumeBool(),
     }
+    row_level = {"dup_row", "drop_row", "blank", "relabel", "relabel_known", "swap_labels"}
+    if fdp.ConsumeBool() and wide is None and all(d["dtype"] is not None for d in dims) and all(f["kind"] in row_level for f in faults):
+        # the same long table without a header line (first data row read as column names)
+        desc["layout"] = {"wide": None, "index": [], "header": {l: "junk" for l in order}, "value_col": "value", "col_order": None, "drop_single": []}
+        desc["noheader"] = True
+        desc["dup_index"] = False
+    return desc
 
 
 def TestOneInput(data: bytes):
